@@ -102,6 +102,8 @@ package api
 //@   ensures base(*buf) == old(base(*buf)) ==> same(*buf, old(*buf))
 
 //@ func freeBytes props C17,C06
+//@   modifies $pooled
+//@   ensures forall r int :: $pooled[r] == (old($pooled[r]) || (cap(buf) <= int(option.LimitBufferSize) && r == base(buf)))
 
 //@ func (*StreamDecoder).setErr props C17
 //@   requires self != nil
